@@ -37,6 +37,13 @@ Proof. reflexivity. Qed.
 Lemma gen_mailbox_escape_byte : forall b, mailbox_escape_byte b = ((b =? 34) || (b =? 92)).
 Proof. reflexivity. Qed.
 
+Lemma gen_param_bad_byte : forall b, param_bad_byte b = ((b <=? 32) || (b =? 61) || (127 <=? b)).
+Proof. reflexivity. Qed.
+
+(* the DSN options store the very expression they validate *)
+Lemma gen_dsn_validated_is_stored : dsn_ret_validated_is_stored = true /\ dsn_notify_validated_is_stored = true.
+Proof. split; reflexivity. Qed.
+
 Lemma gen_dsn_constants :
   dsn_ret_hdrs = bs "HDRS" /\ dsn_ret_full = bs "FULL" /\ dsn_notify_never = bs "NEVER" /\
   dsn_notify_success = bs "SUCCESS" /\ dsn_notify_failure = bs "FAILURE" /\ dsn_notify_delay = bs "DELAY".
@@ -91,10 +98,12 @@ Proof.
     destruct (forallb _ n); inversion H; subst. apply (nocrlf_app (bs "EHLO ")); [reflexivity|exact V].
   - unfold helo_line, helo_name_ok in H. destruct (validate_line n) eqn:V; simpl in H; [|discriminate].
     destruct (forallb _ n); inversion H; subst. apply (nocrlf_app (bs "HELO ")); [reflexivity|exact V].
-  - unfold mail_line in H. destruct (validate_line from) eqn:V; inversion H; subst.
+  - unfold mail_line in H. destruct (validate_line from) eqn:V; [|discriminate].
+    destruct (negb (c_dsn c && nonempty ret) || param_value_ok ret); inversion H; subst.
     apply (nocrlf_app (bs "MAIL FROM:<")); [reflexivity|]. apply nocrlf_app; [exact V|].
     apply (nocrlf_app (bs ">")); [reflexivity|]. apply nocrlf_flat. apply mail_params_nocrlf. exact Hw.
-  - unfold rcpt_line in H. destruct (validate_line to) eqn:V; inversion H; subst.
+  - unfold rcpt_line in H. destruct (validate_line to) eqn:V; [|discriminate].
+    destruct (negb (c_dsn c && nonempty notify) || param_value_ok notify); inversion H; subst.
     apply (nocrlf_app (bs "RCPT TO:<")); [reflexivity|]. apply nocrlf_app; [exact V|].
     apply (nocrlf_app (bs ">")); [reflexivity|]. apply nocrlf_flat. apply rcpt_params_nocrlf. exact Hw.
   - inversion H; subst. unfold auth_line. destruct resp as [r|].
@@ -533,6 +542,21 @@ Proof.
 Qed.
 
 (* what the reference server reads from the line sent for the mailbox local@domain *)
+Lemma value_param_ok : forall v, value_ok v -> param_value_ok v = true.
+Proof.
+  intros v H. unfold param_value_ok. eapply forallb_imp; [|exact H]. intros x Hx. cbv beta.
+  rewrite gen_param_bad_byte. unfold esmtp_value_char in Hx. lia.
+Qed.
+
+Lemma ret_param_ok : forall r, ret_ok r -> param_value_ok r = true.
+Proof. intros r [->|[->| ->]]; reflexivity. Qed.
+
+Lemma param_ok_nocrlf : forall v, param_value_ok v = true -> nocrlf v.
+Proof.
+  intros v H. unfold nocrlf. eapply forallb_imp; [|exact H]. intros x Hx. cbv beta in Hx.
+  rewrite gen_param_bad_byte in Hx. unfold no_crlf_byte. lia.
+Qed.
+
 Theorem path_exact : forall c ret notify local domain,
   local <> [] -> ascii_unless (c_utf8 c) local = true ->
   domain_ok (c_utf8 c) domain = true -> no_at domain = true ->
@@ -547,6 +571,7 @@ Theorem path_exact : forall c ret notify local domain,
   end.
 Proof.
   intros c ret notify local domain Hne HA HD Hat HR HN.
+  pose proof (ret_param_ok _ HR) as PR. pose proof (value_param_ok _ HN) as PN.
   rewrite (smtp_mailbox_cases local domain Hat).
   destruct (mail_params_own c ret HR) as [MS MP]. destruct (rcpt_params_own c notify HN) as [RS RP].
   pose proof (domain_nocrlf _ _ HD) as DN.
@@ -554,13 +579,13 @@ Proof.
   - assert (V : validate_line (local ++ 64 :: domain) = true).
     { apply nocrlf_app; [apply dot_string_nocrlf; exact DS|]. unfold nocrlf. simpl. exact DN. }
     split.
-    + eexists. split; [unfold mail_line; rewrite V; reflexivity|].
+    + eexists. split; [unfold mail_line; rewrite V, PR, orb_true_r; reflexivity|].
       unfold parse_path_line. 
       change (strip_prefix_ci (bs "MAIL FROM:") (bs "MAIL FROM:<" ++ (local ++ 64 :: domain) ++ bs ">" ++ sp_params (mail_params c ret)))
         with (Some (60 :: (local ++ 64 :: domain) ++ 62 :: sp_params (mail_params c ret))).
       rewrite <- app_assoc. simpl app.
       rewrite (parse_path_ok (c_utf8 c) local local domain _ (parse_local_dot _ _ _ DS HA) HD MS MP). reflexivity.
-    + eexists. split; [unfold rcpt_line; rewrite V; reflexivity|].
+    + eexists. split; [unfold rcpt_line; rewrite V, PN, orb_true_r; reflexivity|].
       unfold parse_path_line.
       change (strip_prefix_ci (bs "MAIL FROM:") (bs "RCPT TO:<" ++ (local ++ 64 :: domain) ++ bs ">" ++ sp_params (rcpt_params c notify)))
         with (@None bytes).
@@ -578,7 +603,7 @@ Proof.
     { intro tail. simpl app. rewrite <- app_assoc. simpl app. unfold parse_local.
       apply parse_quoted_quote_body. exact CA. }
     split.
-    + eexists. split; [unfold mail_line; rewrite V; reflexivity|].
+    + eexists. split; [unfold mail_line; rewrite V, PR, orb_true_r; reflexivity|].
       unfold parse_path_line.
       change (strip_prefix_ci (bs "MAIL FROM:") (bs "MAIL FROM:<" ++ (34 :: quote_body local ++ 34 :: 64 :: domain) ++ bs ">" ++ sp_params (mail_params c ret)))
         with (Some (60 :: (34 :: quote_body local ++ 34 :: 64 :: domain) ++ 62 :: sp_params (mail_params c ret))).
@@ -586,7 +611,7 @@ Proof.
         with (60 :: (34 :: quote_body local ++ [34]) ++ 64 :: domain ++ 62 :: sp_params (mail_params c ret))
         by (simpl; rewrite <- !app_assoc; reflexivity).
       rewrite (parse_path_ok (c_utf8 c) _ local domain _ (PL _) HD MS MP). reflexivity.
-    + eexists. split; [unfold rcpt_line; rewrite V; reflexivity|].
+    + eexists. split; [unfold rcpt_line; rewrite V, PN, orb_true_r; reflexivity|].
       unfold parse_path_line.
       change (strip_prefix_ci (bs "MAIL FROM:") (bs "RCPT TO:<" ++ (34 :: quote_body local ++ 34 :: 64 :: domain) ++ bs ">" ++ sp_params (rcpt_params c notify)))
         with (@None bytes).
@@ -677,4 +702,51 @@ Theorem dsn_options_safe : forall opts cfg, apply_dsn_opts dsn_none opts = Some 
 Proof.
   intros opts cfg H. destruct (apply_dsn_inv opts dsn_none cfg) as [R N]; [left; reflexivity|constructor|exact H|].
   split; [exact R|apply join_value_ok; exact N].
+Qed.
+
+(* ---- DSN values end to end ---- *)
+(* every option list the constructors accept yields MAIL / RCPT lines that are read back with exactly the client's
+   own parameters (RET / NOTIFY built from the stored values, which are the validated ones: gen_dsn_validated_is_stored) *)
+Theorem dsn_options_lines : forall opts cfg c local domain,
+  apply_dsn_opts dsn_none opts = Some cfg ->
+  local <> [] -> ascii_unless (c_utf8 c) local = true ->
+  domain_ok (c_utf8 c) domain = true -> no_at domain = true ->
+  match smtp_mailbox (local ++ 64 :: domain) with
+  | None => existsb is_ctl local = true
+  | Some p =>
+      (exists line, mail_line c (d_ret cfg) p = Some line /\
+         parse_path_line (c_utf8 c) line = Some (VMail, local, domain, mail_params c (d_ret cfg))) /\
+      (exists line, rcpt_line c (notify_string cfg) p = Some line /\
+         parse_path_line (c_utf8 c) line = Some (VRcpt, local, domain, rcpt_params c (notify_string cfg)))
+  end.
+Proof.
+  intros opts cfg c local domain H Hne HA HD Hat. destruct (dsn_options_safe opts cfg H) as [R N].
+  apply path_exact; assumption.
+Qed.
+
+(* the raw setters of smtp.Client (SetDSNMailReturnOption / SetDSNRcptNotifyOption take any string): whatever was
+   stored, a line that is written is one line, and a RET / NOTIFY value that is sent has no blank, CR, LF or "=" *)
+Theorem raw_dsn_value_lines : forall c v addr l,
+  (mail_line c v addr = Some l \/ rcpt_line c v addr = Some l) ->
+  nocrlf l /\ (c_dsn c && nonempty v = true -> param_value_ok v = true).
+Proof.
+  intros c v addr l H.
+  assert (K : forall pre (ps : bytes -> list bytes),
+            (forall x, nocrlf x -> Forall nocrlf (ps x)) -> (c_dsn c && nonempty v = false -> ps v = ps []) -> nocrlf pre ->
+            (if validate_line addr && (negb (c_dsn c && nonempty v) || param_value_ok v)
+             then Some (pre ++ addr ++ bs ">" ++ sp_params (ps v)) else None) = Some l ->
+            nocrlf l /\ (c_dsn c && nonempty v = true -> param_value_ok v = true)).
+  { intros pre ps P1 P2 Hp E. destruct (validate_line addr) eqn:V; [|discriminate]. simpl in E.
+    destruct (c_dsn c && nonempty v) eqn:D; simpl in E.
+    - destruct (param_value_ok v) eqn:PV; [|discriminate]. inversion E; subst. split; [|reflexivity].
+      apply nocrlf_app; [exact Hp|]. apply nocrlf_app; [exact V|]. apply (nocrlf_app (bs ">")); [reflexivity|].
+      apply nocrlf_flat. apply P1. apply param_ok_nocrlf. exact PV.
+    - inversion E; subst. split; [|discriminate].
+      apply nocrlf_app; [exact Hp|]. apply nocrlf_app; [exact V|]. apply (nocrlf_app (bs ">")); [reflexivity|].
+      apply nocrlf_flat. rewrite (P2 eq_refl). apply P1. reflexivity. }
+  destruct H as [H|H].
+  - apply (K (bs "MAIL FROM:<") (mail_params c)); [apply mail_params_nocrlf| |reflexivity|exact H].
+    intro D. unfold mail_params. unfold nonempty in D. rewrite D. simpl negb. rewrite andb_false_r. reflexivity.
+  - apply (K (bs "RCPT TO:<") (rcpt_params c)); [apply rcpt_params_nocrlf| |reflexivity|exact H].
+    intro D. unfold rcpt_params. unfold nonempty in D. rewrite D. simpl negb. rewrite andb_false_r. reflexivity.
 Qed.
